@@ -43,6 +43,8 @@ def enum_alts(t):
 
 def field(v, n):
     op = v.op
+    if op == "boxptr":
+        return v
     if op == "oneof":
         return mk("oneof", *[field(x, n) for x in v.args])
     if op == "agg":
@@ -109,6 +111,9 @@ def deref_value(eng, state, p):
             return eng.join_values(("deref",) + p.args[0], vals)
     if op == "oneof":
         return mk("oneof", *[deref_value(eng, state, x) for x in p.args])
+    if op == "boxptr":
+        v = state.get(p.args[0])
+        return v if v is not None else mk("undef", p.args[0])
     return mk("deref", p)
 
 
@@ -255,6 +260,8 @@ class Engine:
         self.phi_changed = False
         self.opaque = set(opaque or ())   # workspace function names to treat as opaque
         self.site_counter = 0
+        self.cur = None         # (frame, block) being executed
+        self.param_writes = {}  # (frame_key, block, loc, path) -> fn name : writes into root-parameter pointees
         self.n_frames = 0
         self.n_block_execs = 0
 
@@ -266,6 +273,8 @@ class Engine:
         return project(self, state, v, path)
 
     def store(self, state, loc, path, val):
+        if loc[0] == "param" and self.cur is not None:
+            self.param_writes[(self.cur[0].key, self.cur[1], loc, path)] = self.cur[0].fn.name
         if not path:
             state[loc] = val
         else:
@@ -278,7 +287,10 @@ class Engine:
         path = ()
         kind = "loc"
         val = None
+        skip_wrappers = False
         for e in place[1]:
+            if skip_wrappers and e != "*" and e[0] == "f":
+                continue   # MaybeUninit / ManuallyDrop wrappers around a fresh Box content
             if e == "*":
                 if kind == "loc":
                     p = self.load(state, loc, path)
@@ -286,6 +298,9 @@ class Engine:
                     p = val
                 if p.op == "ref":
                     kind, loc, path = "loc", p.args[0], p.args[1]
+                elif p.op == "boxptr":
+                    kind, loc, path = "loc", p.args[0], ()
+                    skip_wrappers = True
                 elif p.op == "refv":
                     kind, val = "val", p.args[0]
                 else:
@@ -603,6 +618,7 @@ class Engine:
     def exec_block(self, frame, b, state):
         fn = frame.fn
         blk = fn.blocks[b]
+        self.cur = (frame, b)
         for si, s in enumerate(blk["s"]):
             if "l" in s:
                 v = self.rvalue(state, frame, s["r"], (b, si), s)
@@ -690,7 +706,9 @@ class Engine:
                     if rng and rng[0] <= a.args[0] <= rng[1]:
                         return Int(a.args[0], to)
                 return mk("cast", a, frm, to)
-            if k.startswith("PointerCoercion") or k.startswith("PtrToPtr") or k.startswith("Transmute") and False:
+            if k.startswith("PointerCoercion") or k.startswith("PtrToPtr"):
+                return a
+            if k.startswith("Transmute") and a.op in ("ref", "refv", "boxptr", "refo"):
                 return a
             if "Unsize" in k or "MutToConstPointer" in k or "ReifyFnPointer" in k or "ClosureFnPointer" in k:
                 return a
@@ -826,6 +844,7 @@ class Engine:
               "substs": call.get("substs"), "inlined": call.get("inlined", False), "model": call.get("model"),
               "local": call.get("local", False), "tc": call.get("tc", False), "diverges": t["target"] < 0}
         self.events[(frame.key, b, "t")] = ev
+        self.cur = (frame, b)
         if res is None or t["target"] < 0:
             return None
         self.write_place(state, frame, t["dest"], res, site=(b, "call"))
